@@ -1,7 +1,8 @@
 SPECIFICATION LSpec
-CONSTANTS Procs = {"p1", "p2", "p3"}
+CONSTANTS Users = {"u1", "u2", "u3"}
           N = 2
           None = None
-          Bytes <- BytesMixed
+          ProcOf <- ProcMulti
+          Bytes <- BytesMulti
 INVARIANTS MutualExclusion OwnerAgrees ValidCounters Chain ZeroOnlyFirst
 CHECK_DEADLOCK FALSE
